@@ -129,4 +129,23 @@ pub fn v_any<T, F: Fn(&T) -> bool>(s: &[T], f: F) -> (r: bool)
 }
 pub assume_specification<T, E> [Option::<Result<T, E>>::transpose] (o: Option<Result<T, E>>) -> (r: Result<Option<T>, E>)
     ensures r == (match o { Some(Ok(x)) => Ok::<Option<T>, E>(Some(x)), Some(Err(e)) => Err::<Option<T>, E>(e), None => Ok::<Option<T>, E>(None) });
+
+/// R-std: `util::lcm(s.iter().flat_map(f))` with `f: &T -> Option<usize>` (trusted: the body is the original
+/// expression).  `vals` is a ghost description of what `f` returns per element (checked against the closure's
+/// own postcondition in `requires`); the contract states what the type builder relies on: the least common
+/// multiple of the present values is at least every non-zero value, and is zero only if a value is zero.
+#[verifier::external_body]
+pub fn v_lcm_flat_map<T, F: Fn(&T) -> Option<usize>>(s: &[T], f: F, Ghost(vals): Ghost<Seq<Option<usize>>>) -> (r: Option<usize>)
+    requires
+        vals.len() == s@.len(),
+        forall|i: int| 0 <= i < s@.len() ==> f.requires((&#[trigger] s@[i],)),
+        forall|i: int, o: Option<usize>| 0 <= i < s@.len() && #[trigger] f.ensures((&s@[i],), o) ==> o == vals[i],
+    ensures
+        r is Some && r->0 != 0 ==> forall|i: int| 0 <= i < vals.len() && (#[trigger] vals[i]) is Some && vals[i]->0 != 0 ==> vals[i]->0 <= r->0,
+        r is Some && r->0 == 0 ==> exists|i: int| 0 <= i < vals.len() && #[trigger] vals[i] == Some(0usize),
+{
+    crate::util::lcm(s.iter().flat_map(f))
+}
+pub assume_specification [usize::is_power_of_two] (n: usize) -> (r: bool)
+    ensures r == crate::verif_specs::is_pow2(n as nat);
 }
